@@ -467,6 +467,8 @@ def r_modtype(doc, op):
     typ = 'RefList:' + typ[4:]
   if typ.split(':')[0] not in GROUPABLE and any(x['summarySourceCol'] == c['id'] for x in doc.columns_meta()):
     typ = 'Text'     # a group-by column keeps a concrete type (see _groupable)
+  if c['isFormula'] and typ.startswith('Ref'):
+    typ = 'Text'     # a formula column becomes a reference column only when its formula yields records
   return ['ModifyColumn', t['tableId'], c['colId'], {'type': typ}]
 
 
